@@ -144,7 +144,8 @@ JudgeSink(k, a) ==
 
 \* a = [exc, events : Seq([ev, netloc_kind, ctx, out])]: what the enforcing consumer did while it started
 JudgeSecond(k, a) ==
-  /\ Clause1("SANITY:second_location_contacted", \E i \in 1..Len(a.events) : a.events[i].second)
+  /\ Clause1("SANITY:second_location_contacted",
+             k.what = "hostile_second" => \E i \in 1..Len(a.events) : a.events[i].second)
   /\ Clause1("no_plaintext_to_second_location:consumer",
              \A i \in 1..Len(a.events) : a.events[i].ctx = ClientCtx("consumer"))
 
@@ -155,7 +156,7 @@ CaseOf(j) ==
     [] j.kind = "cert" -> [kind |-> "cert", entry |-> j.entry, ca |-> j.ca, cyphers |-> j.cyphers]
     [] j.kind = "client" -> [kind |-> "client", cls |-> j.cls, ctx |-> j.ctx]
     [] j.kind = "sink" -> [kind |-> "sink", mgr |-> j.mgr, notify |-> j.notify, endto |-> j.endto]
-    [] j.kind = "second" -> [kind |-> "second", mgr |-> j.mgr, psrv |-> j.psrv]
+    [] j.kind = "second" -> [kind |-> "second", mgr |-> j.mgr, psrv |-> j.psrv, what |-> j.what]
 
 InDomain(c) == CASE c.kind = "cfg" -> c \in Configs
                  [] c.kind = "cert" -> c \in CertCases
